@@ -16,6 +16,8 @@
 //	          do-not-send-first-blocks per request; cancel k>0: the requestor fails request i from its block hook
 //	          at block k; start value 9999 = when every earlier request has ended and the network is drained)
 //	            (bit i = 1: request i is issued by a SECOND requestor peer)
+//	          [shape=twin]  the DAG is dag.GenTwin(<seed>): two sub-DAGs without a common CID that overlap in one
+//	          leaf's BYTES, linked as CIDv1/raw on one side and as CIDv1/dag-cbor (same multihash) on the other
 //	remote <cids|->      responder's store
 //	put <cid> …          requestor's store
 //	run                  -> one summary line
@@ -46,6 +48,7 @@ import (
 	"github.com/ipfs/go-graphsync/dedupkey"
 	"github.com/ipfs/go-graphsync/donotsendfirstblocks"
 
+	"verifharness/dag"
 	"verifharness/quiesce"
 	"verifharness/reg"
 	tn "verifharness/twonode"
@@ -76,7 +79,18 @@ type Params struct {
 	Skip   []int    // user do-not-send-first-blocks per request
 	Cancel []int    // 0<k<100: the requestor's block hook terminates request i with an error at block k; 100+k: the hook PAUSES
 	// request i at block k (PauseRequest), it is never resumed: the harness cancels it once everything else has ended
-	Peers []int // issuing requestor of each request: 0 = node A, 1 = node B (a second requestor peer)
+	Peers []int  // issuing requestor of each request: 0 = node A, 1 = node B (a second requestor peer)
+	Shape string // "" = dag.Gen(seed, mb); "twin" = dag.GenTwin(seed)
+}
+
+// worldOf: the case's DAG
+func worldOf(p Params) *tn.World {
+	if p.Shape == "twin" {
+		d, _, _ := dag.GenTwin(rand.New(rand.NewSource(p.Seed)))
+		return tn.NewWorldOf(d)
+	}
+	w, _ := tn.NewWorld(p.Seed, p.MB)
+	return w
 }
 
 func bits(s string, n int) ([]bool, bool) {
@@ -243,6 +257,12 @@ func parseHeader(h string) (Params, bool) {
 				p.Peers[i] = 1
 			}
 		}
+	}
+	if v, has := kvs["shape"]; has {
+		if v != "twin" {
+			return p, false
+		}
+		p.Shape = v
 	}
 	if v, has := kvs["dedup"]; has {
 		if v != "none" && v != "same" && v != "distinct" {
@@ -857,7 +877,7 @@ func runCase(c reg.Case, out *reg.Out) {
 	var w *tn.World
 	var qs []*tn.Query
 	if ok {
-		w, _ = tn.NewWorld(p.Seed, p.MB)
+		w = worldOf(p)
 		for _, qsx := range p.Q {
 			sel, sok := tn.SelectorByName(qsx.Sel)
 			if !sok || qsx.Root >= len(w.D.Cids) {
@@ -991,6 +1011,10 @@ func judgeCase(out *reg.Out, w *tn.World, qs []*tn.Query, loc, rem []int, p Para
 		}
 	}
 	out.Cov("dedup." + p.Dedup)
+	if p.Shape != "" {
+		out.Cov("shape." + p.Shape)
+		twinCov(out, conc.sim, w, p)
+	}
 	out.Cov(fmt.Sprintf("requests.%d", n))
 	race := sharedRace(conc.sim, func(req int) int {
 		if req >= 0 && req < n && p.Peers[req] == 1 {
@@ -1174,6 +1198,9 @@ func emit(wr *bufio.Writer, id string, p Params, loc, rem []int) {
 	}
 	if nz(p.Cancel) {
 		extra += " cancel=" + tn.FmtInts(p.Cancel)
+	}
+	if p.Shape != "" {
+		extra += " shape=" + p.Shape
 	}
 	hdr := fmt.Sprintf("dag=%d:%d q=%s start=%s sched=%d w=%d,%d,%d wr=%s ws=%s qg=%s sg=%s wg=%s dedup=%s peers=%s%s",
 		p.Seed, p.MB, strings.Join(qs, ","), tn.FmtInts(p.Start), p.Sched, p.W[0], p.W[1], p.W[2], tn.FmtInts(p.WR), tn.FmtInts(p.WS), fmtBits(p.QG), fmtBits(p.SG), wg, p.Dedup, fmtBits(pb), extra)
@@ -1447,10 +1474,124 @@ func genCase(r *rand.Rand, i int) (Params, []int, []int) {
 	}
 }
 
+// genTwinCase: two requests of one requestor whose DAGs have no CID in common but overlap in one leaf's
+// bytes (dag.GenTwin: raw link on one side, dag-cbor link on the other, same multihash); the responder
+// holds everything, the requestor (store keyed by CID) nothing.  Alone, each request is sent the block
+// for its own link; concurrently it must be, too — whatever the other request has been sent.
+func genTwinCase(r *rand.Rand, i int) (Params, []int, []int) {
+	seed := r.Int63n(1 << 40)
+	d, sides, _ := dag.GenTwin(rand.New(rand.NewSource(seed)))
+	nb := len(d.Cids)
+	n := 2
+	if r.Intn(5) == 0 {
+		n = 3
+	}
+	p := Params{Seed: seed, MB: 9, W: [3]int{1, 1, 1}, WG: -1, Dedup: "none", Shape: "twin"}
+	p.Q = []QSpec{{sides[0], "all"}, {sides[1], "all"}}
+	if n == 3 {
+		// the whole DAG as well: ONE request that reaches the bytes through both CIDs
+		p.Q = append(p.Q, QSpec{nb - 1, "all"})
+	}
+	var rem []int
+	for k := 0; k < nb; k++ {
+		rem = append(rem, k)
+	}
+	p.Sched = r.Int63n(1 << 30)
+	p.Start = make([]int, n)
+	p.WR, p.WS = make([]int, n), make([]int, n)
+	p.QG, p.SG = make([]bool, n), make([]bool, n)
+	for k := 0; k < n; k++ {
+		p.WR[k], p.WS[k] = 1, 1
+		p.QG[k], p.SG[k] = true, r.Intn(2) == 0
+	}
+	// the responder's executors are what matters: a request is "in progress" for the link tracker until
+	// its executor has finished, so (except in the free run) every request's store reads are gated and
+	// the scheduler interleaves them
+	for k := 0; k < n; k++ {
+		p.SG[k] = true
+	}
+	switch r.Intn(8) {
+	case 0, 1: // lock-step on the responder
+	case 2: // request 1 ahead on the responder: it reaches the bytes while request 0 is in progress
+		p.WS[1] = 1 + r.Intn(4)
+	case 3: // request 0 ahead on the responder
+		p.WS[0] = 1 + r.Intn(4)
+	case 4, 5, 6: // staggered start: request 1 is issued when request 0 is some blocks into its response, and
+		// then catches up on the responder
+		p.Start[1] = 2 + r.Intn(14)
+		p.WS[1] = 2 + r.Intn(7)
+	default: // free run
+		for k := 0; k < n; k++ {
+			p.QG[k], p.SG[k] = false, false
+		}
+	}
+	if r.Intn(3) == 0 {
+		p.W = [3]int{1 + r.Intn(4), 1 + r.Intn(4), 1}
+	}
+	switch r.Intn(6) {
+	case 0:
+		p.Dedup = "distinct"
+	case 1:
+		p.Dedup = "same"
+	}
+	p.Peers = make([]int, n)
+	if r.Intn(8) == 0 {
+		p.Peers[1] = 1
+	}
+	p.Ign = make([][]int, n)
+	p.Skip = make([]int, n)
+	p.Cancel = make([]int, n)
+	return p, nil, rem
+}
+
+// twinCov: how often the interesting interleaving is reached — the second of the two side requests was
+// told about its twin link while the other one, which had already been told about its own, was still
+// in progress on the responder (no terminal status of it handed to the network yet).
+func twinCov(out *reg.Out, s *tn.Sim, w *tn.World, p Params) {
+	var log []tn.Event
+	s.Locked(func() { log = append(log, s.Log...) })
+	first := map[int]int{} // request -> seq of the first outgoing-block hook for block 0 or 1
+	end := map[int]int{}
+	for _, e := range log {
+		if e.Kind == tn.EvRespHook && (e.Cid == 0 || e.Cid == 1) && e.Req >= 0 && e.Req < 2 {
+			if _, ok := first[e.Req]; !ok {
+				first[e.Req] = e.Seq
+			}
+		}
+		if e.Kind == tn.EvSend && e.Side == tn.NodeResp && e.Pkt != nil {
+			for _, r := range e.Pkt.Resps {
+				if r.Status.IsTerminal() {
+					if _, ok := end[r.Req]; !ok {
+						end[r.Req] = e.Seq
+					}
+				}
+			}
+		}
+	}
+	a, okA := first[0]
+	b, okB := first[1]
+	if !okA || !okB {
+		return
+	}
+	fst, snd := 0, 1
+	if b < a {
+		fst, snd = 1, 0
+	}
+	if es, ok := end[fst]; !ok || es > first[snd] {
+		out.Cov("twin.overlap-in-progress")
+		out.Cov("twin.overlap-in-progress." + p.Dedup)
+	}
+}
+
 func Gen(seed int64, n int, tier string, wr *bufio.Writer) {
 	runtime.GOMAXPROCS(1)
 	r := rand.New(rand.NewSource(seed))
 	for i := 0; i < n; i++ {
+		if i%13 == 5 {
+			p, loc, rem := genTwinCase(r, i)
+			emit(wr, fmt.Sprintf("c%d", i), p, loc, rem)
+			continue
+		}
 		p, loc, rem := genCase(r, i)
 		emit(wr, fmt.Sprintf("c%d", i), p, loc, rem)
 	}
